@@ -200,6 +200,26 @@ def gen_texts(ctx):
     for _ in range(6000 if T else 800):
         D = rand_digits(rng, rng.randrange(1, 25))
         add(render(D, rng.choice([-308, -307, -309, 323, 324, 325, 340]) + rng.randrange(-len(D) - 1, 3), rng, style=rng.choice(["sci", "any"])), "range")
+    # G8 just below / at / just above a power of two: the rounding carry out of the 53-bit significand
+    for k in list(range(-80, 90)) + ([-1074, -1073, -1022, -1021, -500, -200, 200, 500, 1000, 1023] if T else [-1022, -300, 300, 1023]):
+        for extra in ((18, 20, 24, 30) if T else (20, 26)):
+            if k >= 0:
+                base, scale = 2 ** k * 10 ** extra, extra
+            else:
+                base, scale = 5 ** (-k) * 10 ** extra, extra - k
+            for dlt in (-1, 0, 1, -5, 5):
+                digs = str(base + dlt)
+                if len(digs) <= scale:
+                    digs = "0" * (scale - len(digs) + 1) + digs
+                t = digs[:-scale] + "." + digs[-scale:] if scale else digs
+                add(t, "pow2edge")
+                if len(digs) < 60:
+                    add("-" + digs + "e-" + str(scale), "pow2edge")
+    # G9 exponents at the 32-bit wrap with short and long mantissas
+    for m in ["1", "9", "1.5", "12345678901234567890", "123456789012345678901234567", "0.000000000000000000000000001", "1" * 40]:
+        for e in [4294967280 + i for i in range(0, 40, 3 if not T else 1)] + [2147483647, 2147483648, 429496729, 429496730, 4294967296 * 2 + 5, 99999999, 100000000, 100000001, 999999999, 1000000000]:
+            add(m + "e" + str(e), "range")
+            add(m + "e-" + str(e), "range")
     # G7 malformed and lenient shapes
     good = ["1", "12", "0", "1.5", "0.5", "120", "9999999999999999999999", "1e5", "1.25E-3"]
     for g in good:
